@@ -23,6 +23,8 @@ func c20Scope(w *core.World) map[*ssa.Function]bool {
 		w.Func("pkg/server", "Server", "GetData"),
 		w.Func("pkg/server", "Server", "Subscribe"),
 		w.Func("pkg/server", "Server", "WatchDeviations"),
+		w.Func("pkg/server", "Server", "ListIntent"),
+		w.Func("pkg/server", "Server", "GetIntent"),
 		w.Func("pkg/datastore", "Datastore", "storeSyncMsg"),
 		w.Func("pkg/datastore/target", "ncTarget", "Get"),
 		w.Func("pkg/datastore/target/netconf", "XML2sdcpbConfigAdapter", "Transform"),
@@ -106,6 +108,27 @@ func guardedByAssert(x ssa.Instruction, match func(ta *ssa.TypeAssert) bool) boo
 	return false
 }
 
+// emptyAt: x executes only where len(<same expression as base>) == 0 was found true.
+func emptyAt(x ssa.Instruction, base ssa.Value) bool {
+	for _, a := range core.GuardAtoms(x) {
+		l, r, eqOnTrue, ok := core.EqTest(a.Cond)
+		if !ok || eqOnTrue != a.True {
+			continue
+		}
+		for _, pair := range [][2]ssa.Value{{l, r}, {r, l}} {
+			z, isC := core.ConstInt(pair[1])
+			c, isCall := pair[0].(*ssa.Call)
+			if !isC || z != 0 || !isCall {
+				continue
+			}
+			if bi, isB := c.Common().Value.(*ssa.Builtin); isB && bi.Name() == "len" && (c.Common().Args[0] == base || sameExpr(c.Common().Args[0], base)) {
+				return true
+			}
+		}
+	}
+	return false
+}
+
 // lenGuarded: x executes only on an outcome of a comparison that involves len(<same expression as base>).
 func lenGuarded(x ssa.Instruction, base ssa.Value) bool {
 	for _, g := range core.GuardsOf(x) {
@@ -147,6 +170,11 @@ func c20(w *core.World, r *core.Report) {
 	r.Rule("ERR-BRANCH-USE", 10, "K6 (contradiction rule): on the err != nil outcome of 'v, err := f()' the co-result v is not dereferenced or used as a method receiver (by convention it is nil there).")
 	r.Rule("SPLIT-INDEX", 0, "K2: a constant index >= 1 into the result of strings.Split / SplitN / Fields (input-shaped text) is dominated by a test of len() of that result.")
 
+	r.Rule("EMPTY-INDEX", 0, "K9: a constant index into a slice that a repository function (or an interface method of the repository) just returned is dominated by a test of len() of that slice: results of lookups and filters are empty when nothing matches (e.g. GetHighestPrecedence skips variants that are being deleted).")
+	r.Rule("RUNNER-UP-NIL", 0, "K10: a runner-up accumulator of a selection loop (a pointer that starts as nil and receives the displaced value of the primary accumulator: secondHighest = highest) is nil for a collection with one element; every dereference of it, and every call that hands it to a function dereferencing that parameter, is dominated by a nil test of it.")
+	if nR := c20RunnerUpNil(w, r, scope); nR == 0 {
+		r.OK("RUNNER-UP-NIL", "no runner-up accumulator is dereferenced in the boundary scope", "", "")
+	}
 	r.Rule("TYPED-NIL", 1, "K7: in the boundary scope a function with an interface result does not return a possibly nil POINTER converted to that interface (nil constant of pointer type, or the result of a repository function that has a 'return nil') unless a nil test of the pointer dominates the conversion: the caller's 'x == nil' is false for a typed nil and the next method call dereferences nil.")
 	r.Rule("EXPAND-PROGRESS", 1, "K8: the self-recursion of Converter.ConvertNotificationTypedValues on the result of ExpandUpdate makes progress: in ExpandUpdate no store that puts the input update into a result slice is dominated by the JSON decode of the container branch (a JSON blob on a container is replaced by its expansion, never handed back).")
 	if nT := c20TypedNil(w, r, scope); nT == 0 {
@@ -298,6 +326,27 @@ func c20(w *core.World, r *core.Report) {
 						base, idx = ix.X, ix.Index
 					}
 					n, isC := core.ConstInt(idx)
+					if isC && n >= 0 && emptyAt(x.(ssa.Instruction), base) {
+						// contradiction: indexed on the very branch that found the slice empty
+						r.Viol("EMPTY-INDEX", core.Site(f, "index %d on the len()==0 branch", n), w.InstrPos(x.(ssa.Instruction)), "the slice was just found empty on this branch: the index panics instead of reporting the problem")
+					}
+					if isC && n >= 0 {
+						// K9: a constant index into what a repository function just returned
+						if _, isSlice := base.Type().Underlying().(*types.Slice); isSlice {
+							var from *ssa.Call
+							core.WithoutInlining(func() {
+								for _, oc := range core.OriginCalls(base) {
+									if isRepoCallee(oc) {
+										from = oc
+									}
+								}
+							})
+							if from != nil {
+								in9 := x.(ssa.Instruction)
+								r.Check(lenGuarded(in9, base), "EMPTY-INDEX", core.Site(f, "index %d into the result of %s", n, shortSrc(core.CalleeKey(from))), w.InstrPos(in9), "the callee can hand back an empty slice (nothing matched): indexing it panics")
+							}
+						}
+					}
 					if !isC || n < 1 {
 						continue
 					}
